@@ -396,6 +396,664 @@ def ops_task(rng, thorough):
     for op, (params, results) in NUMERIC.items():
         body = [["local.get", k] for k in range(len(params))] + [[op]]
         fi = add_func(d, params, results, [], body)
-        for vec in operand_vectors(rng, params, nrand, thorough):
+        vecs = operand_vectors(rng, params, nrand, thorough)
+        if len(params) == 2 and results == ["i32"]:
+            vecs = list(dict.fromkeys(vecs + cmp_vectors(params[0])))   # the comparison patterns use these: attribution
+        for vec in vecs:
             calls.append((fi, vec, op))
     return {"id": "ops", "kind": "ops", "desc": d, "calls": calls, "stateless": True}
+
+
+# ---------------------------------------------------------------------------------------------
+# layer B: hand-written patterns (fixed; independent of the seed)
+
+
+def L(n):
+    return ["local.get", n]
+
+
+def C(t, v):
+    """constant from a host value (int for iN, float for fN) or from raw bits when given as ("bits", b)"""
+    if isinstance(v, tuple):
+        return [f"{t}.const", v[1]]
+    if t in INTS:
+        return [f"{t}.const", v & ((1 << BITS[t]) - 1)]
+    return [f"{t}.const", f32_bits(v) if t == "f32" else f64_bits(v)]
+
+
+def I(v):
+    return C("i32", v)
+
+
+def task(id_, desc, calls, stateless=False, kind="pattern", **kw):
+    return dict({"id": id_, "kind": kind, "desc": desc, "calls": calls, "stateless": stateless}, **kw)
+
+
+def cmp_vectors(t):
+    b = boundary(t)
+    vs = special_pairs(t) + [(b[(7 * k) % len(b)], b[(11 * k + 3) % len(b)]) for k in range(24)]
+    return list(dict.fromkeys(vs))
+
+
+def cmp_tasks():
+    """comparison followed by i32.eqz / if / br_if / select, and comparison consumed directly"""
+    tasks = []
+    for t in INTS + FLTS:
+        d = new_module()
+        calls = []
+        vecs = cmp_vectors(t)
+        rels = (IREL if t in INTS else FREL)
+        for r in rels:
+            op = f"{t}.{r}"
+            cmp = [L(0), L(1), [op]]
+            variants = [
+                (f"{op};i32.eqz", cmp + [["i32.eqz"]]),
+                (f"{op};i32.eqz;i32.eqz", cmp + [["i32.eqz"], ["i32.eqz"]]),
+                (f"{op};i32.eqz;if", cmp + [["i32.eqz"], ["if", [], ["i32"], [I(10)], [I(20)]]]),
+                (f"{op};i32.eqz;br_if", [["block", [], ["i32"], [I(10)] + cmp + [["i32.eqz"], ["br_if", 0], ["drop"], I(20)]]]),
+                (f"{op};i32.eqz;select", [I(7), I(9)] + cmp + [["i32.eqz"], ["select"]]),
+                (f"{op};if", cmp + [["if", [], ["i32"], [I(10)], [I(20)]]]),
+                (f"{op};br_if", [["block", [], ["i32"], [I(10)] + cmp + [["br_if", 0], ["drop"], I(20)]]]),
+                (f"{op};select", [I(7), I(9)] + cmp + [["select"]]),
+                (f"{op};local.set", cmp + [["local.set", 2], L(2), L(2), ["i32.add"]]),
+            ]
+            for label, body in variants:
+                fi = add_func(d, [t, t], ["i32"], ["i32"], body)
+                for v in vecs:
+                    calls.append((fi, v, label))
+        if t in INTS:
+            for label, body in [(f"{t}.eqz;i32.eqz", [L(0), [f"{t}.eqz"], ["i32.eqz"]]),
+                                (f"{t}.eqz;if", [L(0), [f"{t}.eqz"], ["if", [], ["i32"], [I(10)], [I(20)]]]),
+                                (f"{t}.eqz;i32.eqz;if", [L(0), [f"{t}.eqz"], ["i32.eqz"], ["if", [], ["i32"], [I(10)], [I(20)]]])]:
+                fi = add_func(d, [t], ["i32"], [], body)
+                for v in boundary(t)[:12]:
+                    calls.append((fi, (v,), label))
+        tasks.append(task(f"cmp-{t}", d, calls, stateless=True))
+    return tasks
+
+
+def const_task():
+    d = new_module()
+    calls = []
+    for t in INTS + FLTS:
+        for b in boundary(t):
+            fi = add_func(d, [], [t], [], [[f"{t}.const", b]])
+            cls = "nan" if is_nan(t, b) else "inf" if is_inf(t, b) else "finite"
+            calls.append((fi, (), f"{t}.const" + ("" if t in INTS else f"[{cls}]")))
+    return task("const", d, calls, stateless=True)
+
+
+def locals_task():
+    d = new_module()
+    calls = []
+    for t in INTS + FLTS:
+        z = add_func(d, [], [t], [t], [L(0)])
+        calls.append((z, (), f"local.get[zero-init {t}]"))
+        tee = add_func(d, [t], [t], [t], [L(0), ["local.tee", 1], ["drop"], L(1)])
+        st = add_func(d, [t, t], [t], [t], [L(1), ["local.set", 2], L(0), ["local.set", 1], L(2), ["local.set", 0], L(0)])
+        sel = add_func(d, [t, t, "i32"], [t], [], [L(0), L(1), L(2), ["select"]])
+        drp = add_func(d, [t, t], [t], [], [L(0), L(1), ["drop"]])
+        for k, b in enumerate(boundary(t)):
+            calls.append((tee, (b,), f"local.tee[{t}]"))
+            b2 = boundary(t)[(k * 5 + 1) % len(boundary(t))]
+            calls.append((st, (b, b2), f"local.set[{t}]"))
+            calls.append((sel, (b, b2, k % 3), f"select[{t}]"))
+            calls.append((drp, (b, b2), f"drop[{t}]"))
+    return task("locals", d, calls, stateless=True)
+
+
+def globals_task():
+    d = new_module()
+    calls = []
+    inits = {"i32": 0x80000000, "i64": 0xFFFFFFFF00000001, "f32": f32_bits(-1.5), "f64": f64_bits(2.5e-300)}
+    for k, t in enumerate(INTS + FLTS):
+        d["globals"].append([t, True, inits[t]])
+    for k, t in enumerate(INTS + FLTS):
+        d["globals"].append([t, False, boundary(t)[5]])
+    for k, t in enumerate(INTS + FLTS):
+        g = add_func(d, [], [t], [], [["global.get", k]])
+        gc = add_func(d, [], [t], [], [["global.get", k + 4]])
+        s = add_func(d, [t], [], [], [L(0), ["global.set", k]])
+        sw = add_func(d, [t], [t], [], [["global.get", k], L(0), ["global.set", k]])
+        calls.append((g, (), f"global.get[{t} initial]"))
+        calls.append((gc, (), f"global.get[{t} const]"))
+        for b in boundary(t)[:10] + boundary(t)[-4:]:
+            calls.append((s, (b,), f"global.set[{t}]"))
+            calls.append((g, (), f"global.get[{t}]"))
+            calls.append((sw, (b ^ 1,), f"global.set[{t}]"))
+    return task("globals", d, calls, name="globals")
+
+
+LOADS = {"i32": ["load", "load8_s", "load8_u", "load16_s", "load16_u"],
+         "i64": ["load", "load8_s", "load8_u", "load16_s", "load16_u", "load32_s", "load32_u"], "f32": ["load"], "f64": ["load"]}
+STORES = {"i32": ["store", "store8", "store16"], "i64": ["store", "store8", "store16", "store32"], "f32": ["store"], "f64": ["store"]}
+
+
+def acc_width(t, name):
+    for w in ("8", "16", "32"):
+        if name.startswith("load" + w) or name.startswith("store" + w):
+            return int(w) // 8
+    return BITS[t] // 8
+
+
+def memory_tasks():
+    """in-bounds loads/stores of every width (stateful, final memory compared) and out-of-bounds accesses (must trap)"""
+    d = new_module(mem=[1, 2])
+    d["datas"] = [[0, "0180ff7f00807fff8000000000000080"], [16, "f0e1d2c3b4a59687"], [65528, "1122334455667788"]]
+    calls = []
+    ld, stf = {}, {}
+    for t in INTS + FLTS:
+        for name in LOADS[t]:
+            for off in (0, 3, 65528):
+                ld[t, name, off] = add_func(d, ["i32"], [t], [], [L(0), [f"{t}.{name}", off]])
+        for name in STORES[t]:
+            for off in (0, 5):
+                stf[t, name, off] = add_func(d, ["i32", t], [], [], [L(0), L(1), [f"{t}.{name}", off]])
+    # loads of the data segments, aligned and unaligned
+    for (t, name, off), fi in ld.items():
+        w = acc_width(t, name)
+        addrs = [0, 1, 2, 3, 5, 7, 8, 9, 13, 16, 17, 20] if off < 65528 else sorted({0, min(1, 8 - w), 8 - w})
+        for a in addrs:
+            calls.append((fi, (a,), f"{t}.{name}"))
+    # stores then loads
+    vals = {t: boundary(t) for t in INTS + FLTS}
+    k = 0
+    for (t, name, off), fi in stf.items():
+        w = acc_width(t, name)
+        for a in (32, 41, 100 + 3 * k, 65536 - off - w, 1000 + k):
+            v = vals[t][(k * 7 + 3) % len(vals[t])]
+            k += 1
+            calls.append((fi, (a, v), f"{t}.{name}"))
+            for lname in LOADS[t][:3]:
+                calls.append((ld[t, lname, 0], ((a + off) & ~7 if lname == "load" and a + off + 8 > 65536 else a + off,), f"{t}.{lname}"))
+    tasks = [task("mem", d, calls, name="memory")]
+    # out of bounds: every access must trap and leave memory alone
+    d2 = new_module(mem=[1, 2])
+    d2["datas"] = [[65528, "1122334455667788"]]
+    c_ld, c_st = [], []
+    for t in INTS + FLTS:
+        for name in LOADS[t]:
+            w = acc_width(t, name)
+            f0 = add_func(d2, ["i32"], [t], [], [L(0), [f"{t}.{name}", 0]])
+            f1 = add_func(d2, ["i32"], [t], [], [L(0), [f"{t}.{name}", 65535]])
+            f2 = add_func(d2, ["i32"], [t], [], [L(0), [f"{t}.{name}", 0xFFFFFFFF]])
+            for a in ([65536 - w + 1] if w > 1 else []) + [65536, 65537, 131072, 0x7FFFFFFF, 0x80000000, 0xFFFFFFFF, 0xFFFFFFFF - w + 1, 0xFFFF0000]:
+                c_ld.append((f0, (a,), ("load" if "load" in name else "store") + "[out of bounds]"))
+            for a in (1, 2, 65535, 0xFFFFFFFF, 0xFFFF0001):
+                c_ld.append((f1, (a,), ("load" if "load" in name else "store") + "[out of bounds]"))
+            for a in (1, 2, 65536, 0xFFFFFFFF):
+                c_ld.append((f2, (a,), ("load" if "load" in name else "store") + "[out of bounds]"))
+            c_ld.append((f0, (65536 - w,), f"{t}.{name}"))
+    tasks.append(task("mem-oob-load", d2, c_ld, stateless=True, nofinal=True, native_stride=9))
+    d3 = new_module(mem=[1, 2])
+    for t in INTS + FLTS:
+        for name in STORES[t]:
+            w = acc_width(t, name)
+            f0 = add_func(d3, ["i32", t], [], [], [L(0), L(1), [f"{t}.{name}", 0]])
+            f1 = add_func(d3, ["i32", t], [], [], [L(0), L(1), [f"{t}.{name}", 65535]])
+            v = boundary(t)[9]
+            for a in ([65536 - w + 1] if w > 1 else []) + [65536, 0x80000000, 0xFFFFFFFF, 0xFFFFFFFF - w + 1]:
+                c_st.append((f0, (a, v), ("load" if "load" in name else "store") + "[out of bounds]"))
+            for a in (1, 0xFFFFFFFF):
+                c_st.append((f1, (a, v), ("load" if "load" in name else "store") + "[out of bounds]"))
+    tasks.append(task("mem-oob-store", d3, c_st, stateless=True, nofinal=True, native_stride=5))
+    return tasks
+
+
+def memgrow_tasks():
+    tasks = []
+    for mx in (3, None):
+        d = new_module(mem=[1, mx])
+        size = add_func(d, [], ["i32"], [], [["memory.size"]])
+        grow = add_func(d, ["i32"], ["i32"], [], [L(0), ["memory.grow"]])
+        st = add_func(d, ["i32", "i32"], [], [], [L(0), L(1), ["i32.store", 0]])
+        ld = add_func(d, ["i32"], ["i32"], [], [L(0), ["i32.load", 0]])
+        calls = [(size, (), "memory.size"), (ld, (65536,), "load[out of bounds]"), (grow, (0,), "memory.grow"), (grow, (1,), "memory.grow"),
+                 (size, (), "memory.size"), (st, (65536 + 8, 0xDEADBEEF), "i32.store"), (ld, (65536 + 8,), "i32.load"),
+                 (grow, (5,) if mx else (2,), "memory.grow"), (grow, (1,), "memory.grow"), (size, (), "memory.size"),
+                 (grow, (1,), "memory.grow"), (grow, (0xFFFFFFFF,), "memory.grow"), (grow, (0x10000,), "memory.grow"), (size, (), "memory.size"),
+                 (st, (3 * 65536 - 4, 0x01020304), "i32.store"), (ld, (3 * 65536 - 4,), "i32.load"), (ld, (3 * 65536 - 3,) if mx else (6 * 65536,), "load[out of bounds]")]
+        tasks.append(task(f"memgrow-{mx}", d, calls, name="memory.grow"))
+    return tasks
+
+
+def control_tasks():
+    d = new_module()
+    calls = []
+    # br_table out of three nested blocks; default is the function level
+    bt = add_func(d, ["i32"], ["i32"], [],
+                  [["block", [], [], [["block", [], [], [["block", [], [], [["block", [], [], [L(0), ["br_table", [0, 1, 2], 3]]], I(100), ["return"]]], I(101), ["return"]]],
+                                      I(102), ["return"]]], I(103)])
+    # br_table default in the middle, repeated labels, value carried
+    bt2 = add_func(d, ["i32"], ["i32"], [],
+                   [["block", [], ["i32"], [["block", [], ["i32"], [I(7), L(0), ["br_table", [1, 0, 1, 1], 0]]], I(1000), ["i32.add"]]]])
+    # br_table with a single (default) label
+    bt3 = add_func(d, ["i32"], ["i32"], [], [["block", [], [], [L(0), ["br_table", [], 0]]], I(55)])
+    # br_table inside a loop: label 0 = continue
+    bt4 = add_func(d, ["i32"], ["i32"], ["i32"],
+                   [["block", [], [], [["loop", [], [], [L(1), I(1), ["i32.add"], ["local.set", 1], L(0), L(1), ["i32.sub"], ["br_table", [1, 0, 0, 0], 1]]]]], L(1)])
+    for v in [0, 1, 2, 3, 4, 5, 100, 0x7FFFFFFF, 0x80000000, 0xFFFFFFFF, 0xFFFFFFFE]:
+        calls += [(bt, (v,), "br_table"), (bt2, (v,), "br_table[value]"), (bt3, (v,), "br_table[default only]")]
+    for v in [0, 1, 2, 3, 4, 7]:
+        calls.append((bt4, (v,), "br_table[loop]"))
+    # loops
+    sumn = add_func(d, ["i32"], ["i32"], ["i32"],
+                    [["block", [], [], [["loop", [], [], [L(0), ["i32.eqz"], ["br_if", 1], L(1), L(0), ["i32.add"], ["local.set", 1],
+                                                         L(0), I(1), ["i32.sub"], ["local.set", 0], ["br", 0]]]]], L(1)])
+    nest = add_func(d, ["i32", "i32"], ["i64"], ["i32", "i64"],
+                    [["loop", [], [], [L(1), ["local.set", 2],
+                                       ["loop", [], [], [L(3), C("i64", 3), ["i64.add"], ["local.set", 3], L(2), I(1), ["i32.sub"], ["local.tee", 2], I(0), ["i32.gt_s"], ["br_if", 0]]],
+                                       L(0), I(1), ["i32.sub"], ["local.tee", 0], ["br_if", 0]]], L(3)])
+    for v in [0, 1, 2, 10, 100]:
+        calls.append((sumn, (v,), "loop[sum]"))
+    for a, b in [(1, 1), (2, 3), (5, 4), (7, 1)]:
+        calls.append((nest, (a, b), "loop[nested]"))
+    # loop result via fallthrough, br to loop start carrying nothing
+    # block results, unwinding of extra operands
+    unw = add_func(d, ["i32"], ["i32"], [],
+                   [["block", [], ["i32"], [I(1), I(2), I(3), L(0), ["br_if", 0], ["drop"], ["drop"], ["drop"], I(4), I(5), ["br", 0]]]])
+    unw2 = add_func(d, ["i32"], ["i32"], [],
+                    [I(11), ["block", [], ["i32"], [I(1), ["block", [], [], [I(2), I(3), L(0), ["br_if", 1], ["drop"], ["drop"]]], I(40), ["i32.add"]]], ["i32.add"]])
+    ret = add_func(d, ["i32"], ["i32"], [], [I(1), I(2), ["block", [], [], [L(0), ["if", [], [], [I(9), ["return"]], []]]], ["i32.add"]])
+    ifr = add_func(d, ["i32", "f64", "f64"], ["f64"], [], [L(0), ["if", [], ["f64"], [L(1)], [L(2)]]])
+    ifn = add_func(d, ["i32"], ["i32"], ["i32"], [L(0), ["if", [], [], [I(5), ["local.set", 1]], []], L(1)])
+    ifnest = add_func(d, ["i32", "i32"], ["i32"], [],
+                      [L(0), ["if", [], ["i32"], [L(1), ["if", [], ["i32"], [I(11)], [I(10)]]], [L(1), ["if", [], ["i32"], [I(1)], [I(0)]]]]])
+    dead = add_func(d, ["i32"], ["i32"], [],
+                    [["block", [], ["i32"], [L(0), ["br", 0], ["i32.add"], ["drop"], I(5)]], I(1), ["i32.add"]])
+    dead2 = add_func(d, ["i32"], ["i32"], [], [L(0), ["return"], ["unreachable"]])
+    unr = add_func(d, ["i32"], ["i32"], [], [L(0), ["if", [], [], [["unreachable"]], []], I(3)])
+    unr2 = add_func(d, ["i32"], [], [], [L(0), ["if", [], [], [["unreachable"]], []]])
+    brv = add_func(d, ["i64"], ["i64"], [], [["block", [], ["i64"], [L(0), ["block", [], [], [L(0), ["i64.eqz"], ["br_if", 0], C("i64", 9), ["br", 1]]], C("i64", 1), ["i64.add"]]]])
+    nop = add_func(d, ["i32"], ["i32"], [], [["nop"], L(0), ["nop"], ["nop"]])
+    for v in [0, 1, 2, 0xFFFFFFFF]:
+        calls += [(unw, (v,), "br_if[unwind]"), (unw2, (v,), "br_if[unwind nested]"), (ret, (v,), "return[unwind]"),
+                  (ifn, (v,), "if[no else]"), (dead, (v,), "br[dead code]"), (dead2, (v,), "return[dead code]"),
+                  (unr, (v,), "unreachable"), (unr2, (v,), "unreachable[procedure]"), (nop, (v,), "nop")]
+        calls.append((ifr, (v, f64_bits(1.5), f64_bits(-0.0)), "if[result f64]"))
+        calls.append((brv, (v,), "br[value i64]"))
+        for w in [0, 1]:
+            calls.append((ifnest, (v, w), "if[nested]"))
+    tasks = [task("control", d, calls, stateless=True)]
+    # multi-value: block / loop / if with parameters (spec 2.0)
+    d = new_module()
+    calls = []
+    bp = add_func(d, ["i32", "i32"], ["i32"], [], [L(0), L(1), ["block", ["i32", "i32"], ["i32"], [["i32.sub"]]]])
+    lp = add_func(d, ["i32"], ["i32"], [], [I(0), L(0), ["loop", ["i32", "i32"], ["i32"],
+                                                           [["local.set", 0], L(0), ["i32.add"], L(0), I(1), ["i32.sub"], ["local.tee", 0], L(0), ["br_if", 0], ["drop"]]]])
+    ip = add_func(d, ["i32", "i32"], ["i32"], [], [L(0), L(1), ["if", ["i32"], ["i32"], [I(1), ["i32.add"]], [I(2), ["i32.mul"]]]])
+    for a, b in [(5, 3), (0, 0), (7, 1), (3, 0)]:
+        calls += [(bp, (a, b), "block[params]"), (ip, (a, b), "if[params]")]
+    for v in [1, 2, 5]:
+        calls.append((lp, (v,), "loop[params]"))
+    tasks.append(task("multivalue", d, calls, stateless=True))
+    return tasks
+
+
+def call_tasks():
+    d = new_module(table=[5, 5])
+    calls = []
+    mix = add_func(d, ["i32", "i64", "f32", "f64"], ["f64"], [],
+                   [L(0), ["f64.convert_i32_s"], L(1), ["f64.convert_i64_s"], ["f64.add"], L(2), ["f64.promote_f32"], ["f64.add"], L(3), ["f64.sub"]])
+    callmix = add_func(d, ["i32", "f64"], ["f64"], [], [L(0), C("i64", -5), C("f32", 0.5), L(1), ["call", mix], L(1), ["f64.mul"]])
+    fact = add_func(d, ["i64"], ["i64"], [], None)
+    d["funcs"][fact]["body"] = [L(0), ["i64.eqz"], ["if", [], ["i64"], [C("i64", 1)], [L(0), L(0), C("i64", 1), ["i64.sub"], ["call", fact], ["i64.mul"]]]]
+    fib = add_func(d, ["i32"], ["i32"], [], None)
+    d["funcs"][fib]["body"] = [L(0), I(2), ["i32.lt_u"], ["if", [], ["i32"], [L(0)], [L(0), I(1), ["i32.sub"], ["call", fib], L(0), I(2), ["i32.sub"], ["call", fib], ["i32.add"]]]]
+    even = add_func(d, ["i32"], ["i32"], [], None)
+    odd = add_func(d, ["i32"], ["i32"], [], None)
+    d["funcs"][even]["body"] = [L(0), ["i32.eqz"], ["if", [], ["i32"], [I(1)], [L(0), I(1), ["i32.sub"], ["call", odd]]]]
+    d["funcs"][odd]["body"] = [L(0), ["i32.eqz"], ["if", [], ["i32"], [I(0)], [L(0), I(1), ["i32.sub"], ["call", even]]]]
+    d["globals"].append(["i32", True, 0])
+    bump = add_func(d, [], [], [], [["global.get", 0], I(1), ["i32.add"], ["global.set", 0]])
+    callp = add_func(d, ["i32"], ["i32"], [], [["call", bump], ["call", bump], L(0), ["if", [], [], [["call", bump]], []], ["global.get", 0]])
+    inc = add_func(d, ["i32"], ["i32"], [], [L(0), I(1), ["i32.add"]])
+    dbl = add_func(d, ["i32"], ["i32"], [], [L(0), I(2), ["i32.mul"]])
+    neg64 = add_func(d, ["i64"], ["i64"], [], [C("i64", 0), L(0), ["i64.sub"]])
+    t_i32 = type_index(d, ["i32"], ["i32"])
+    ind = add_func(d, ["i32", "i32"], ["i32"], [], [L(1), L(0), ["call_indirect", t_i32]])
+    d["elems"] = [[0, [inc, dbl]], [3, [neg64, fib]]]
+    for a in [(0, 0, 0, 0), (0xFFFFFFFF, 1 << 63, f32_bits(1.5), f64_bits(0.25)), (7, 0xFFFFFFFFFFFFFFFF, f32_bits(-2.0), f64_bits(1e10))]:
+        calls.append((mix, a, "call[mixed params]"))
+    calls.append((callmix, (3, f64_bits(2.0)), "call[mixed params]"))
+    for v in [0, 1, 5, 20, 21, 25]:
+        calls.append((fact, (v,), "call[recursion]"))
+    for v in [0, 1, 2, 10, 15]:
+        calls.append((fib, (v,), "call[recursion]"))
+    for v in [0, 1, 10, 11]:
+        calls.append((even, (v,), "call[mutual recursion]"))
+    for v in [0, 1, 0]:
+        calls.append((callp, (v,), "call[procedure]"))
+    for idx, v in [(0, 41), (1, 21), (4, 10), (0, 0xFFFFFFFF)]:
+        calls.append((ind, (idx, v), "call_indirect"))
+    t1 = task("calls", d, calls, name="calls")
+    # traps of call_indirect, one call per job on the native target (a wild jump can take the process down)
+    oob = [(ind, (5, 1), "call_indirect[index out of bounds]"), (ind, (0xFFFFFFFF, 1), "call_indirect[index out of bounds]"),
+           (ind, (2, 1), "call_indirect[null entry]"), (ind, (3, 1), "call_indirect[signature mismatch]")]
+    import copy
+    t2 = task("calls-trap", copy.deepcopy(d), oob, stateless=True, nofinal=True)
+    return [t1, t2]
+
+
+def start_task():
+    d = new_module(mem=[1, 1], table=[2, None])
+    d["globals"] = [["i32", True, 5], ["i64", False, 0xFFFFFFFFFFFFFFFF]]
+    d["datas"] = [[8, "0102030405060708"], [10, "ffee"], [65534, "abcd"]]
+    st = add_func(d, [], [], [], [["global.get", 0], I(10), ["i32.mul"], ["global.set", 0], I(0), ["global.get", 1], ["i64.store", 0], I(12), I(0x7A), ["i32.store8", 0]])
+    rd = add_func(d, ["i32"], ["i64"], [], [L(0), ["i64.load", 0]])
+    g = add_func(d, [], ["i32"], [], [["global.get", 0]])
+    d["start"] = st
+    d["elems"] = [[1, [g]]]
+    ci = add_func(d, ["i32"], ["i32"], [], [L(0), ["call_indirect", type_index(d, [], ["i32"])]])
+    calls = [(g, (), "start[global]"), (rd, (0,), "start[memory]"), (rd, (8,), "data segment"), (rd, (65528,), "data segment"), (ci, (1,), "elem segment")]
+    return task("start", d, calls, name="start")
+
+
+def trapping_start_task():
+    d = new_module(mem=[1, 1])
+    st = add_func(d, [], [], [], [I(0), I(0), ["i32.div_u"], ["drop"]])
+    d["start"] = st
+    return task("start-trap", d, [], name="start[trap]", nofinal=True)
+
+
+def pattern_tasks(rng=None, thorough=False):
+    ts = cmp_tasks() + [const_task(), locals_task(), globals_task()] + memory_tasks() + memgrow_tasks() + control_tasks() + call_tasks()
+    ts += [start_task(), trapping_start_task()]
+    return ts
+
+
+# ---------------------------------------------------------------------------------------------
+# layer C: random typed programs (valid by construction; loops bounded by counters; calls form a DAG)
+
+TYPES = INTS + FLTS
+
+
+class FuncGen:
+    def __init__(self, rng, mod, index, params, result, sigs, gtypes, has_mem, table_sigs):
+        self.rng, self.mod, self.index = rng, mod, index
+        self.params, self.result = params, result
+        self.locals = list(params)
+        for _ in range(rng.randrange(1, 5)):
+            self.locals.append(rng.choice(TYPES))
+        self.sigs = sigs                # signatures of the functions that may be called (index < self.index)
+        self.gtypes = gtypes            # [(type, mutable)]
+        self.has_mem = has_mem
+        self.table_sigs = table_sigs    # [(table slot, funcidx)]
+        self.labels = []                # innermost first: arity type or None (loops: None = branch carries nothing)
+        self.budget = rng.randrange(25, 90)
+
+    def new_local(self, t):
+        self.locals.append(t)
+        return len(self.locals) - 1
+
+    def locals_of(self, t):
+        return [k for k, lt in enumerate(self.locals) if lt == t]
+
+    # ---- expressions --------------------------------------------------------------------
+    def const(self, t):
+        return [f"{t}.const", rand_value(self.rng, t)]
+
+    def small_i32(self, lo=0, hi=16):
+        return I(self.rng.randrange(lo, hi))
+
+    def expr(self, t, depth):
+        rng = self.rng
+        self.budget -= 1
+        if depth <= 0 or self.budget <= 0:
+            ls = self.locals_of(t)
+            if ls and rng.random() < 0.6:
+                return [L(rng.choice(ls))]
+            return [self.const(t)]
+        r = rng.random()
+        d = depth - 1
+        if r < 0.10:
+            return [self.const(t)]
+        if r < 0.22:
+            ls = self.locals_of(t)
+            if ls:
+                return [L(rng.choice(ls))]
+        if r < 0.27:
+            gs = [k for k, (gt, _m) in enumerate(self.gtypes) if gt == t]
+            if gs:
+                return [["global.get", rng.choice(gs)]]
+        if r < 0.50:
+            return self.arith(t, d)
+        if r < 0.58:
+            return self.convert(t, d)
+        if r < 0.64 and self.has_mem:
+            return self.load(t, d)
+        if r < 0.70:
+            return self.expr(t, d) + self.expr(t, d) + self.cond(d) + [["select"]]
+        if r < 0.77:
+            return self.cond(d) + [["if", [], [t], self.in_label(t, lambda: self.expr(t, d)), self.in_label(t, lambda: self.expr(t, d))]]
+        if r < 0.83:
+            # block with result, left early by br_if carrying a value
+            def body():
+                return self.expr(t, d) + self.cond(d) + [["br_if", 0], ["drop"]] + self.expr(t, d)
+            return [["block", [], [t], self.in_label(t, body)]]
+        if r < 0.90:
+            cands = [k for k, (ps, rs) in enumerate(self.sigs) if rs == [t]]
+            if cands:
+                k = rng.choice(cands)
+                code = []
+                for pt in self.sigs[k][0]:
+                    code += self.expr(pt, min(d, 1))
+                slots = [s for s, f in self.table_sigs if f == k]
+                if slots and rng.random() < 0.5:
+                    return code + [I(rng.choice(slots)), ["call_indirect", type_index(self.mod, *self.sigs[k])]]
+                return code + [["call", k]]
+        if r < 0.95:
+            ls = self.locals_of(t)
+            if ls:
+                return self.expr(t, d) + [["local.tee", rng.choice(ls)]]
+        return self.arith(t, d)
+
+    def cond(self, depth):
+        """an i32 used as a condition: often a (not materialised) comparison, sometimes negated"""
+        rng = self.rng
+        r = rng.random()
+        if r < 0.75:
+            t = rng.choice(TYPES)
+            rel = rng.choice(IREL if t in INTS else FREL)
+            code = self.expr(t, depth) + self.expr(t, depth) + [[f"{t}.{rel}"]]
+            if rng.random() < 0.3:
+                code.append(["i32.eqz"])
+            return code
+        if r < 0.85:
+            t = rng.choice(INTS)
+            return self.expr(t, depth) + [[f"{t}.eqz"]]
+        return self.expr("i32", depth)
+
+    def arith(self, t, d):
+        rng = self.rng
+        if t in INTS:
+            r = rng.random()
+            if t == "i32" and r < 0.25:
+                return self.cond(d)
+            if r < 0.40:
+                op = rng.choice(IUN + ["extend8_s", "extend16_s"] + (["extend32_s"] if t == "i64" else []))
+                return self.expr(t, d) + [[f"{t}.{op}"]]
+            op = rng.choice(IBIN)
+            a, b = self.expr(t, d), self.expr(t, d)
+            if op in ("div_s", "div_u", "rem_s", "rem_u") and rng.random() < 0.93:
+                b = b + [C(t, 1), [f"{t}.or"]]
+            return a + b + [[f"{t}.{op}"]]
+        r = rng.random()
+        if r < 0.35:
+            return self.expr(t, d) + [[f"{t}.{rng.choice(FUN)}"]]
+        op = rng.choice(FBIN)
+        a = self.expr(t, d)
+        if op == "div" and rng.random() < 0.9:
+            b = [C(t, rng.choice([1.0, -2.0, 0.5, 3.0, 7.0, -0.25, 1e10]))]
+        else:
+            b = self.expr(t, d)
+        return a + b + [[f"{t}.{op}"]]
+
+    def convert(self, t, d):
+        rng = self.rng
+        if t == "i32":
+            c = rng.choice(["wrap", "reinterpret", "sat32", "sat64", "trunc"])
+            if c == "wrap":
+                return self.expr("i64", d) + [["i32.wrap_i64"]]
+            if c == "reinterpret":
+                return self.expr("f32", d) + [["i32.reinterpret_f32"]]
+            if c == "trunc":
+                return self.expr("i32", d) + [I(0xFFFFF), ["i32.and"], ["f64.convert_i32_s"], C("f64", rng.choice([0.5, 1.0, -1.5, 1024.0])), ["f64.mul"],
+                                              [f"i32.trunc_f64_{rng.choice('su') if False else 's'}"]]
+            s = "f32" if c == "sat32" else "f64"
+            return self.expr(s, d) + [[f"i32.trunc_sat_{s}_{rng.choice('su')}"]]
+        if t == "i64":
+            c = rng.choice(["ext_s", "ext_u", "reinterpret", "sat32", "sat64"])
+            if c.startswith("ext"):
+                return self.expr("i32", d) + [[f"i64.extend_i32_{c[-1]}"]]
+            if c == "reinterpret":
+                return self.expr("f64", d) + [["i64.reinterpret_f64"]]
+            s = "f32" if c == "sat32" else "f64"
+            return self.expr(s, d) + [[f"i64.trunc_sat_{s}_{rng.choice('su')}"]]
+        c = rng.choice(["conv32", "conv64", "other", "reinterpret"])
+        if c.startswith("conv"):
+            s = "i32" if c == "conv32" else "i64"
+            return self.expr(s, d) + [[f"{t}.convert_{s}_{rng.choice('su')}"]]
+        if c == "reinterpret":
+            s = "i32" if t == "f32" else "i64"
+            return self.expr(s, d) + [[f"{t}.reinterpret_{s}"]]
+        if t == "f32":
+            return self.expr("f64", d) + [["f32.demote_f64"]]
+        return self.expr("f32", d) + [["f64.promote_f32"]]
+
+    def address(self, d):
+        code = self.expr("i32", d)
+        if self.rng.random() < 0.97:
+            code = code + [I(0xFFF0), ["i32.and"]]
+        return code, self.rng.randrange(0, 8)
+
+    def load(self, t, d):
+        code, off = self.address(d)
+        return code + [[f"{t}.{self.rng.choice(LOADS[t])}", off]]
+
+    # ---- statements ---------------------------------------------------------------------
+    def in_label(self, arity, fn):
+        self.labels.insert(0, arity)
+        try:
+            return fn()
+        finally:
+            self.labels.pop(0)
+
+    def stmts(self, depth, n=None):
+        out = []
+        for _ in range(n if n is not None else self.rng.randrange(1, 4)):
+            s = self.stmt(depth)
+            out += s
+            if s and s[-1][0] in ("br", "br_table", "return", "unreachable"):
+                if self.rng.random() < 0.3:       # some (valid) dead code
+                    out += [I(1), ["drop"]]
+                break
+        return out
+
+    def stmt(self, depth):
+        rng = self.rng
+        self.budget -= 1
+        d = max(depth - 1, 0)
+        r = rng.random()
+        if depth <= 0 or self.budget <= 0 or r < 0.30:
+            k = rng.randrange(len(self.locals))
+            return self.expr(self.locals[k], min(depth, 2)) + [["local.set", k]]
+        if r < 0.38:
+            gs = [k for k, (_t, m) in enumerate(self.gtypes) if m]
+            if gs:
+                k = rng.choice(gs)
+                return self.expr(self.gtypes[k][0], d) + [["global.set", k]]
+        if r < 0.50 and self.has_mem:
+            t = rng.choice(TYPES)
+            code, off = self.address(d)
+            return code + self.expr(t, d) + [[f"{t}.{rng.choice(STORES[t])}", off]]
+        if r < 0.62:
+            return self.cond(d) + [["if", [], [], self.in_label(None, lambda: self.stmts(d)),
+                                    self.in_label(None, lambda: self.stmts(d)) if rng.random() < 0.6 else []]]
+        if r < 0.70:
+            return [["block", [], [], self.in_label(None, lambda: self.stmts(d) + self.cond(d) + [["br_if", 0]] + self.stmts(d))]]
+        if r < 0.80:
+            c = self.new_local("i32")
+            n = rng.randrange(1, 6)
+
+            def body():
+                return self.stmts(d) + [L(c), I(1), ["i32.sub"], ["local.tee", c], ["br_if", 0]]
+            return [I(n), ["local.set", c], ["loop", [], [], self.in_label(None, body)]]
+        if r < 0.86:
+            # br_table dispatch over nested blocks
+            n = rng.randrange(2, 5)
+            arms = [self.stmts(min(d, 1), 1) for _ in range(n)]
+            targets = [rng.randrange(n) for _ in range(rng.randrange(1, 6))]
+            dflt = rng.randrange(n)
+            inner = self.expr("i32", d) + ([I(7), ["i32.and"]] if rng.random() < 0.7 else []) + [["br_table", targets, dflt]]
+            code = [["block", [], [], inner]]
+            for k in range(n - 1):
+                code = [["block", [], [], code + arms[k] + [["br", n - 1 - k - 1]]]] if False else [["block", [], [], code + arms[k]]]
+            return [["block", [], [], code + arms[n - 1]]] if n > 1 else code
+        if r < 0.90:
+            t = rng.choice(TYPES)
+            return self.expr(t, d) + [["drop"]]
+        if r < 0.94:
+            # leave an enclosing statement block / loop early
+            cands = [k for k, a in enumerate(self.labels) if a is None]
+            if cands:
+                return self.cond(d) + [["br_if", rng.choice(cands)]]
+        if r < 0.97:
+            cands = [k for k, (ps, rs) in enumerate(self.sigs) if rs == []]
+            if cands:
+                k = rng.choice(cands)
+                code = []
+                for pt in self.sigs[k][0]:
+                    code += self.expr(pt, min(d, 1))
+                return code + [["call", k]]
+        return [["nop"]]
+
+    def body(self):
+        code = self.stmts(3, self.rng.randrange(2, 6))
+        if code and code[-1][0] in ("br", "br_table", "return", "unreachable"):
+            code = code[:-1]
+        if self.result:
+            code += self.expr(self.result[0], 3)
+            if self.rng.random() < 0.15:
+                code += [["return"]]
+        return code
+
+
+def random_program(rng, ident):
+    has_mem = rng.random() < 0.8
+    d = new_module(mem=[1, rng.choice([1, 2, None])] if has_mem else None, table=[6, rng.choice([6, None])])
+    gtypes = []
+    for t in TYPES:
+        for _ in range(rng.randrange(0, 2) + (1 if t == "i32" else 0)):
+            m = rng.random() < 0.8
+            gtypes.append((t, m))
+            d["globals"].append([t, m, rand_value(rng, t)])
+    if has_mem:
+        d["datas"] = [[rng.randrange(0, 200), bytes(rng.getrandbits(8) for _ in range(rng.randrange(1, 40))).hex()],
+                      [65536 - 16, bytes(rng.getrandbits(8) for _ in range(16)).hex()]]
+    nf = rng.randrange(2, 6)
+    sigs = []
+    table_sigs = []
+    for k in range(nf):
+        params = [rng.choice(TYPES) for _ in range(rng.randrange(0, 4))]
+        result = [rng.choice(TYPES)] if rng.random() < 0.85 or k == nf - 1 else []
+        d["funcs"].append({"type": type_index(d, params, result), "locals": [], "body": []})
+        g = FuncGen(rng, d, k, params, result, list(sigs), gtypes, has_mem, list(table_sigs))
+        body = g.body()
+        d["funcs"][k]["locals"] = g.locals[len(params):]
+        d["funcs"][k]["body"] = body
+        sigs.append((params, result))
+        if rng.random() < 0.6 and len(table_sigs) < 5:
+            table_sigs.append((len(table_sigs), k))
+    if table_sigs:
+        d["elems"] = [[0, [f for _s, f in table_sigs]]]
+    calls = []
+    for k in range(nf):
+        for _ in range(rng.randrange(2, 6)):
+            calls.append((k, tuple(rand_value(rng, t) for t in sigs[k][0]), "program"))
+    rng.shuffle(calls)
+    return task(f"prog-{ident}", d, calls, kind="program", name="program")
+
+
+def program_tasks(rng, n):
+    return [random_program(rng, k) for k in range(n)]
